@@ -57,13 +57,25 @@ def _model_check(ctx):
 def _replay_a(ctx, exe):
     """TLC enumerates the line sequences, the driver replays them; returns trace chunk paths"""
     q = ctx.quick
+    nparts = 1 if q else 8
+    gens = [os.path.join(ctx.work, "gen.%d.ndjson" % k) for k in range(nparts)]
+
+    def gen_one(k):
+        r = lib.tlc("Gen_KeyParser", cfg="Gen_KeyParser" if q else "Gen_KeyParser_thorough", workers=1, timeout=1500, heap="6g",
+                    env={"GEN": gens[k], "PART": str(k)}, tag="Gen_KeyParser-%d" % k)
+        if not r.ok or not os.path.exists(gens[k]):
+            raise lib.ModelFailure("Gen_KeyParser failed:\n" + r.out[-3000:])
+        return r
+    with cf.ThreadPoolExecutor(nparts) as ex:
+        for r in ex.map(gen_one, range(nparts)):
+            ctx.add_mc(r, "Gen_KeyParser (enumeration of line sequences)")
     gen = os.path.join(ctx.work, "gen.ndjson")
-    r = lib.tlc("Gen_KeyParser", cfg="Gen_KeyParser" if q else "Gen_KeyParser_thorough", workers=1, timeout=1500, heap="6g" if q else "12g",
-                env={"GEN": gen})
-    if not r.ok or not os.path.exists(gen):
-        raise lib.ModelFailure("Gen_KeyParser failed:\n" + r.out[-3000:])
-    ctx.add_mc(r, "Gen_KeyParser (enumeration of line sequences)")
+    with open(gen, "w") as f:
+        for g in gens:
+            f.write(open(g).read())
+            os.remove(g)
     parts = _split(gen, os.path.join(ctx.work, "gen"), 4 if q else 8, "gen")
+    os.remove(gen)
     outs = [p.replace("gen.", "a.") for p in parts]
     env = {"VERIF_SEED": str(ctx.seed), "ASAN_OPTIONS": ASAN % (8, 0)}
 
@@ -80,7 +92,8 @@ def _replay_a(ctx, exe):
 
 def _headers_b(ctx, exe):
     """line-level mutations of headers written by the library, one driver process per reader"""
-    jobs = [("img_direct", 0, 1), ("img_generic", 0, 1)] + [(r, p, 3) for r in ("pd_direct", "pd_generic") for p in range(3)]
+    npd = 3 if ctx.quick else 6
+    jobs = [("img_direct", 0, 1), ("img_generic", 0, 1)] + [(r, p, npd) for r in ("pd_direct", "pd_generic") for p in range(npd)]
     outs = [os.path.join(ctx.work, "b.%s.%d.ndjson" % (r, p)) for (r, p, n) in jobs]
     env = {"VERIF_SEED": str(ctx.seed), "ASAN_OPTIONS": ASAN % (256, 0), "UBSAN_OPTIONS": "print_stacktrace=1:halt_on_error=1:exitcode=78:symbolize=0"}
 
@@ -89,7 +102,7 @@ def _headers_b(ctx, exe):
         w = os.path.join(ctx.work, "hdr-%s-%d" % (r, p))
         os.makedirs(w, exist_ok=True)
         lib.run_driver(exe, ["hdr", w, outs[i], 0 if ctx.quick else 1, r, p, n], env=env, timeout=1500)
-    with cf.ThreadPoolExecutor(len(jobs)) as ex:
+    with cf.ThreadPoolExecutor(8) as ex:
         list(ex.map(one, range(len(jobs))))
     for o in outs:
         if sum(1 for _ in open(o)) < 50:
@@ -195,6 +208,8 @@ def run(ctx):
     if ctx.extra.get("round_trips", 0) < 20 or ctx.extra.get("header_outcomes_accepted", 0) < 100:
         raise lib.ModelFailure("too few round trips / accepted headers recorded: the recording is not exercising the code")
     ctx.exhaustive = False
+    ctx.extra["line_alphabet"] = 51
+    ctx.extra["sequence_bound"] = "all sequences of <= %d physical lines over the 51-line alphabet (both with and without a final newline) + all of <= %d lines whose inner lines are among 18 core lines" % ((3, 4) if q else (4, 5))
     ctx.assumptions = ["memory safety is observed (ASan/UBSan) on the enumerated inputs only; coverage-guided byte-level fuzzing is a different technique and is not done"]
     return ctx.finish(rule="one evaluation = one recorded outcome of the real code (a line sequence fed to a real KeyParser, a mutated header fed to a real "
                            "Interfile reader, a parameter_info -> parse -> parameter_info round trip); distinct_nontrivial = distinct inputs validated")
